@@ -35,7 +35,11 @@ func (q Query) Execute(j *journal.Builder, r *Report) *journal.Processor {
 				ss := q.Universe.Locate(com)
 				level, suffix, ok := q.Mapping.Level(strings.Join(ss, ":"))
 				if ok && level < len(ss)-suffix {
-					ss = append(ss[:level], ss[len(ss)-suffix:]...)
+					// Copy: appending to ss[:level] would overwrite the
+					// classification stored in the universe.
+					shortened := make([]string, 0, level+suffix)
+					shortened = append(shortened, ss[:level]...)
+					ss = append(shortened, ss[len(ss)-suffix:]...)
 				}
 				r.Add(ss, d.Date, v/total)
 			}
